@@ -36,7 +36,7 @@ def classify(msg):
 class SeqResult:
     def __init__(self): self.tie = None; self.san = None; self.oracle = []; self.fsck = []; self.ops = []; self.stats = {}; self.crash = None; self.fault = None
 
-def run_one(exe, ops0, dostype, nblocks=1760, dumps=True, lean=True, fsck_every=6, timeout=300, env=None, judge=True, strict_cache=True):
+def run_one(exe, ops0, dostype, nblocks=1760, dumps=True, lean=True, fsck_every=6, timeout=120, env=None, judge=True, strict_cache=True):
     r = SeqResult()
     sid = hashlib.sha1("\n".join(ops0).encode()).hexdigest()[:12]
     ops, nd = add_dumps(ops0, every=fsck_every) if dumps else (list(ops0), 0)
@@ -130,16 +130,19 @@ def nblocks_of(ops):
     return 1760
 
 # ---------------------------------------------------------------------------- shrinking
-def shrink(ops, still_fails, budget=60):
-    """greedy delta debugging over the op list (keeps the prologue); still_fails(ops) -> bool"""
+def shrink(ops, still_fails, budget=60, seconds=150):
+    """greedy delta debugging over the op list (keeps the prologue); still_fails(ops) -> bool.
+    Bounded by a number of candidates AND by wall-clock time (a broken tree can make every candidate slow)."""
+    import time
+    t_end = time.time() + seconds
     cur = list(ops)
     n = 2
     tries = 0
-    while len(cur) > 8 and tries < budget:
+    while len(cur) > 8 and tries < budget and time.time() < t_end:
         chunk = max(1, (len(cur) - 6) // n)
         removed = False
         i = 6
-        while i < len(cur) and tries < budget:
+        while i < len(cur) and tries < budget and time.time() < t_end:
             cand = cur[:i] + cur[i + chunk:]
             tries += 1
             if still_fails(cand):
